@@ -125,3 +125,30 @@ def _(I, args, kwargs):
 
             raise PyRaise(mk_exc(TypeError, f"unexpected field {k}"))
     return SObj(obj.cls, {**obj.fields, **kwargs}, frozen=obj.frozen)
+
+
+@external("dataclasses.replace")
+def _(I, args, kwargs):
+    """dataclasses.replace: a new instance of the same dataclass with the given fields changed"""
+    import dataclasses
+
+    from pyvc.interp import PyRaise, _has_sym, mk_exc
+    from pyvc.values import SObj
+
+    (obj,) = args
+    if not isinstance(obj, SObj) and not _has_sym(kwargs):
+        try:
+            return dataclasses.replace(obj, **kwargs)
+        except (TypeError, ValueError) as e:
+            raise PyRaise(e)
+    if isinstance(obj, SObj):
+        cls, cur, frozen = obj.cls, dict(obj.fields), obj.frozen
+    else:
+        cls = type(obj)
+        cur = {f.name: getattr(obj, f.name) for f in dataclasses.fields(obj)}
+        frozen = cls.__dataclass_params__.frozen
+    names = {f.name for f in dataclasses.fields(cls)}
+    for k in kwargs:
+        if k not in names:
+            raise PyRaise(mk_exc(TypeError, f"unexpected field {k}"))
+    return SObj(cls, {**cur, **kwargs}, frozen=frozen)
